@@ -403,6 +403,23 @@ def structural_designs() -> Iterator[Tuple[str, dict]]:
                 yield (f"bundle-{bname}-{'flip' if flipped else 'noflip'}-{form}",
                        {"bundles": B(), "modules": [ch, top], "top": "T"})
 
+    # bundle instances made by copying / multiplying / flipping ANOTHER instance that is used too
+    for bname in ("B1", "B2", "B3"):
+        leaves = refsem.bundle_leaves({"bundles": BUNDLES}, bname)
+        cin = []
+        for k, (path, w) in enumerate(leaves):
+            leaf, port, others = leaf_for_width(w)
+            c = {port: ["bref", "bp", list(path)]}
+            for p, pw in others.items():
+                c[p] = S(f"k{pw}")
+            cin.append(_inst(f"e{k}", L(leaf), c, tag=10 + k))
+        ch = _mod("Cb", ports=[["k1", 1, "none"], ["k2", 2, "none"], ["k3", 3, "none"]], bports=[["bp", bname, False, None]], insts=cin)
+        kc = {"k1": S("k1"), "k2": S("k2"), "k3": S("k3")}
+        top = _mod("T", sigs=[["k1", 1], ["k2", 2], ["k3", 3]],
+                   buns=[["a", bname], ["b", bname, "copyof:a"], ["c", bname, "flippedof:a"], ["d", bname, "mult"], ["e", bname, "flippedof:d"]],
+                   insts=[_inst(f"c{k}", ["mod", "Cb"], dict(kc, bp=["bun", bn])) for k, bn in enumerate("abcde")])
+        yield (f"bundle-copies-{bname}", {"bundles": B(), "modules": [ch, top], "top": "T"})
+
     # one bundle (or reference) feeding SEVERAL ports of one instance
     obs = []
     for k, bpn in enumerate(("bp1", "bp2", "bp3")):
